@@ -46,7 +46,7 @@ NextIdx(s, k) == IF k >= NPlan(s) THEN -1 ELSE k + 1
 (***************************************************************************)
 Asked(wl) ==
   IF ~wl.exists THEN 0
-  ELSE CASE wl.kind = "CloneSet" /\ wl.style = "partition" ->
+  ELSE CASE wl.style = "partition" /\ wl.kind \in {"CloneSet", "StatefulSet", "AdvStatefulSet", "DaemonSet"} ->
               IF wl.paused /\ wl.ktype # "none" THEN wl.n[wl.updRev] \* paused: nothing more than what runs already
               ELSE AskedCloneSet(wl.ktype, wl.kval, wl.R)
          [] OTHER -> wl.asked          \* other kinds: computed by the kind-specific projection
